@@ -68,6 +68,14 @@ func runReplay(path string) int {
 		fmt.Printf("not reproduced: %s %q does not fail on the current tree\n", head.Inv, head.Sig)
 		return 0
 	}
+	if head.Engine == "c10" {
+		if replayC10(path) {
+			fmt.Printf("VIOLATION property=%s replay=%s\n  reproduced: %s %q\n", head.Property, path, head.Inv, head.Sig)
+			return 1
+		}
+		fmt.Printf("not reproduced: %s %q does not fail on the current tree\n", head.Inv, head.Sig)
+		return 0
+	}
 	if head.Engine == "heapsim-c11" {
 		tc := buildToolchain()
 		if replayC11Stored(tc, path) {
